@@ -332,6 +332,10 @@ func init() {
 			{file: "internal/mapper/match.go", name: "matchType"},
 			{file: "internal/mapper/match.go", name: "canNameMatch"},
 			{file: "internal/mapper/match.go", name: "Generator.makeTypeMatch"},
+			{file: "internal/mapper/mismatch.go", name: "Generator.makeFuncMap"},
+			{file: "internal/mapper/mismatch.go", name: "Generator.makeSubMap"},
+			{file: "internal/mapper/mismatch.go", name: "Generator.makeSubListMap"},
+			{file: "internal/mapper/mismatch.go", name: "Generator.makeTypeMismatch"},
 		},
 		types: map[string]string{
 			"bool": "bool", "string": "string", "int": "Z",
@@ -340,12 +344,23 @@ func init() {
 			"types.Type": "ty", "map[string]string": "Mapper.tagmap",
 			"*Generator": "-", "*Flags": "MapPrims.flags",
 			"shoot.Func": "Mapper.mfunc", "[]shoot.Func": "(list Mapper.mfunc)",
+			// go/types values of makeSubMap, as far as the model's palette distinguishes them
+			"*types.Pointer": "ty", "*types.Slice": "ty", "*types.Named": "(pkg * string)%type", "*types.TypeName": "(pkg * string)%type",
+			"*types.Package": "(option pkg)", "pkgpath": "pkg", "*packages.Package": "pkg",
+		},
+		shadow: true,
+		eqs:    map[string]string{"pkgpath": "MapVal.pkg_eqb"},
+		asserts: map[string]assertion{
+			"types.Type.(*types.Pointer)": {coq: "MapPrims.as_pointer", result: "*types.Pointer"},
+			"types.Type.(*types.Slice)":   {coq: "MapPrims.as_slice", result: "*types.Slice"},
+			"types.Type.(*types.Named)":   {coq: "MapPrims.as_named", result: "*types.Named"},
 		},
 		ptrs:  map[string]bool{"*Field|nil": true},
 		optOf: map[string]string{"*Field|nil": "*Field"},
 		fields: map[string]map[string]field{
 			"Field":      {"Name": {"Mapper.f_name", "string"}, "backingName": {"Mapper.f_backing", "string"}},
 			"shoot.Func": {"Name": {"Mapper.mf_name", "string"}, "Param": {"Mapper.mf_param", "types.Type"}, "Result": {"Mapper.mf_result", "types.Type"}},
+			"*packages.Package": {"PkgPath": {"MapPrims.pkg_path_of", "pkgpath"}},
 		},
 		records: map[string]map[string]recField{
 			"*Flags": {
@@ -360,6 +375,7 @@ func init() {
 				"srcTagMap":          {get: "(MapPrims.w_tags w)", typ: "map[string]string"},
 				"flags":              {get: "(MapPrims.w_flags w)", typ: "*Flags"},
 				"mappingFuncList":    {get: "(MapPrims.w_funcs w)", typ: "[]shoot.Func"},
+				"destPkg":            {get: "MapVal.PDst", typ: "*packages.Package"},
 				"readSrcMap":         {get: "(Mapper.s_rmap (MapPrims.w_st w))", typ: "map[string]string", set: "MapPrims.rmap_assign"},
 				"writeSrcMap":        {get: "(Mapper.s_wmap (MapPrims.w_st w))", typ: "map[string]string", set: "MapPrims.wmap_assign"},
 			},
@@ -383,7 +399,7 @@ func init() {
 		},
 		loads:   map[string]string{"*Field": "MapPrims.load"},
 		maps:    map[string]string{"map[string]string": "MapPrims.tag_lookup"},
-		nilmaps: map[string]string{"map[string]string": "MapPrims.map_is_nil"},
+		nilmaps: map[string]string{"map[string]string": "MapPrims.map_is_nil", "*types.Package": "GoPrims.is_nil"},
 		makes:   map[string]string{"map[string]string": "MapPrims.map_make"},
 		wmaps: map[string]string{
 			"*Generator.readSrcMap":  "MapPrims.rmap_set",
@@ -397,6 +413,13 @@ func init() {
 			"strings.EqualFold":            {coq: "Str.equal_fold", args: []int{0, 1}, results: []string{"bool"}},
 			"smartMatch":                   {coq: "Transfer.smart_match", args: []int{0, 1}, results: []string{"bool"}},
 			"qualifiedTypeName":            {coq: "MapPrims.qualified_type_name", args: []int{0}, results: []string{"tyname"}},
+			"*types.Pointer.Elem":          {recv: true, coq: "MapPrims.type_elem", results: []string{"types.Type"}},
+			"*types.Slice.Elem":            {recv: true, coq: "MapPrims.type_elem", results: []string{"types.Type"}},
+			"*types.Named.Obj":             {recv: true, coq: "MapPrims.named_obj", results: []string{"*types.TypeName"}},
+			"*types.TypeName.Pkg":          {recv: true, coq: "MapPrims.obj_pkg", results: []string{"*types.Package"}},
+			"*types.TypeName.Name":         {recv: true, coq: "MapPrims.obj_name", results: []string{"tyname"}},
+			"*types.Package.Path":          {recv: true, coq: "MapPrims.pkg_path", results: []string{"pkgpath"}},
+			"*Generator.Pkg":               {coq: "MapVal.PSrc", results: []string{"*packages.Package"}},
 			"logx.Warnf":                   {coq: "MapPrims.prim_warn", args: nil, results: nil, world: true},
 			"*Generator.writeDestSet.Has":  {coq: "MapPrims.wdst_has", args: []int{0}, results: []string{"bool"}, reads: true},
 			"*Generator.writeSrcSet.Has":   {coq: "MapPrims.wsrc_has", args: []int{0}, results: []string{"bool"}, reads: true},
